@@ -31,6 +31,16 @@ AFTER = {
     "C08-r2": "C08.R3 was strengthened after this seed from `some path appends ret` to `every path appends ret`",
     "C18-r2": "C18.R8 (a successful read, end of input included, defines AL / stores the count) was added after this seed",
     "C20-r2": "first reported by C20.R1/C15.R3 for a wrong reason (`no EOF exit`, although the loop still ends at end of input); R1 was corrected and C20.R2 `blank input terminates` added after this seed",
+    "C01-r3": "C01.R10 (an immediate has the width of its destination) was added after this seed; before it only C10.R3 reported the change",
+    "C02-r3": "C02.R11 (the `, cl` forms pass exactly CL) was added after this seed; before it the seed was missed (the count range was merely undecided)",
+    "C10-r3": "C10.R7 (no downstream error return depends on the machine state) was added after this seed; before it the seed was missed (R5 is keyed by nonterminal)",
+    "C13-r3": "the number clause of C13.R7 (a number argument keeps its value) was added after this seed; before it the seed was missed",
+    "C14-r3": "the conversion-type clause of C14.R1 was added after this seed; before it only C11.R2 reported the change",
+    "C15-r3": "the displaced-offset unit of C15.R2 was added after this seed; before it the seed was missed",
+    "C16-r3": "C16.R7 (position lookups hold no interior-mutable state) was added after this seed; before it only C19.R2 reported the change",
+    "C17-r3": "C17.R6 was generalised after this seed (row layout evaluated for several start addresses); before it the seed was undecided",
+    "C18-r3": "C18.R9 (no unguarded lossy cast of a length) was added after this seed; before it the seed was missed",
+    "C20-r3": "C20.R4 reported it through the missing bound atom; the `prompt depends on the instruction text` finding was added after this seed",
     "C20-r1": "caught through C17.R3 (the print range rule), which was extended after this seed; no rule of C20 decides it",
 }
 # alarms of other properties' checks on this seed, judged one by one
@@ -43,6 +53,11 @@ CROSS = {
     ("C15-r1", "C12"): "genuine: the loader's high-byte store no longer goes to (a+1) mod 2^20",
     ("C04-r2", "C11"): "genuine: the assembler drops a component of the source operand (`ds` override), which C11's `operands are preserved` clause covers; through it `ds[bp]` is addressed through SS (C04)",
     ("C12-r2", "C15"): "genuine: the 16-bit product 2*n aborts the assembler for n >= 32768 (C15: no input text aborts)",
+    ("C01-r3", "C10"): "genuine: the assembler emits a 16-bit immediate for `add word label, 300`, which the interpreter form no longer accepts (C10's containment)",
+    ("C07-r3", "C09"): "genuine: `cx as i16 - 1` overflows for CX = 8000h: an arithmetic abort inside the interpreter (C09)",
+    ("C09-r3", "C05"): "genuine: POP reads the high byte of the stack word at base+1 instead of (base+1) mod 2^20 (C05: the word at SS:SP)",
+    ("C14-r3", "C11"): "genuine: the literal -200 in a byte position now means 56 (C11: a numeric literal means its value)",
+    ("C16-r3", "C19"): "genuine: the helper object answers differently depending on earlier lookups (C19: objects give the same answer fresh or used)",
     ("C20-r1", "C17"): "genuine: a print range that leaves the 1 MB space is no longer reported (C17's last clause)",
 }
 
